@@ -31,6 +31,8 @@ Counter p_copy_then_mutate("probe.mutation_with_live_copy");
 Counter p_cap0("probe.capacity_zero_container");
 Counter p_self_assign("probe.self_copy_assignment");
 Counter p_append_self("probe.append_of_own_range");
+Counter p_two_args("probe.emplace_with_two_constructor_arguments");
+Counter p_reverse_source("probe.range_from_reverse_iterators");
 Counter p_range_overwrite("probe.range_insert_before_end");
 Counter p_emplace_alias("probe.emplace_argument_aliases_own_element");
 Counter p_moved_from_walk("probe.moved_from_container_observed");
@@ -168,6 +170,17 @@ struct Tracked : ElemCore
     {
         tsite(ST_VALUE_CTOR);
         born(v, O_CALLER);
+    }
+    // constructing from two arguments is NOT the same as constructing from a list of two values
+    Tracked(int a, int b)
+    {
+        tsite(ST_VALUE_CTOR);
+        born((a + b) % 8, O_CALLER);
+    }
+    Tracked(std::initializer_list<int> l)
+    {
+        tsite(ST_VALUE_CTOR);
+        born(static_cast<int>(100 + l.size()), O_CALLER);
     }
     Tracked(const Tracked& o)
     {
@@ -332,7 +345,7 @@ const std::vector<OpSchema>& fv_schema()
         { "copy_assign", { "obj", "from" } },
         { "move_assign", { "obj", "from" } },
         { "list_assign", { "obj", "n", "v0" } },
-        { "emplace_back", { "obj", "val" } },
+        { "emplace_back", { "obj", "val", "two" } },
         { "insert_lvalue", { "obj", "val" } },
         { "insert_rvalue", { "obj", "val" } },
         { "push_back", { "obj", "val" } },
@@ -899,7 +912,21 @@ struct Exec
             if (op.kind == K_EMPLACE_BACK)
             {
                 size_t ret = 0;
-                res = guarded([&] { ret = sl.p->emplace_back(v); });
+                bool two = false;
+                if constexpr (T::flavor == 0)
+                    two = (op.a[2] & 1) != 0;
+                if constexpr (T::flavor == 0)
+                {
+                    if (two)
+                    {
+                        // emplace_back(a, b) constructs T(a, b), not T{a, b}
+                        p_two_args++;
+                        res = guarded([&] { ret = sl.p->emplace_back(v, 1); });
+                        v = (v + 1) % 8;
+                    }
+                }
+                if (!two)
+                    res = guarded([&] { ret = sl.p->emplace_back(v); });
                 if (res == RS_OK && ret != sl.m.seq.size() && !must_raise)
                     fail("C07/contents", op, opi, presize, precap, "emplace_back returned wrong index");
             }
@@ -972,10 +999,22 @@ struct Exec
             if (overflow)
                 p_range_overflow++;
             std::vector<T> vals = make_values(n, v0);
+            bool reversed = T::copyable && !ins && (op.a[1] / 8) % 2 == 1;
+            std::vector<T> rvals; // the same values stored back to front: rbegin()..rend() yields the planned order
+            if (reversed)
+            {
+                NoFault nf;
+                p_reverse_source++;
+                rvals.reserve(static_cast<size_t>(n));
+                for (int k = n - 1; k >= 0; k--)
+                    rvals.emplace_back(val_of(v0, k));
+            }
             if constexpr (T::copyable)
             {
                 if (ins)
                     res = guarded([&] { sl.p->insert(sl.p->begin() + pos, vals.begin(), vals.end()); });
+                else if (reversed)
+                    res = guarded([&] { sl.p->push_back(rvals.rbegin(), rvals.rend()); });
                 else
                     res = guarded([&] { sl.p->push_back(vals.begin(), vals.end()); });
             }
@@ -1033,6 +1072,17 @@ struct Exec
                     aliased = true;
                     p_emplace_alias++;
                     res = guarded([&] { sl.p->emplace(sl.p->begin() + pos, (*sl.p)[src]); });
+                }
+            }
+            if constexpr (T::flavor == 0)
+            {
+                if (!aliased && op.a[3] == 0 && (op.a[2] / 8) % 2 == 1)
+                {
+                    // emplace(pos, a, b) constructs T(a, b), not T{a, b}
+                    p_two_args++;
+                    aliased = true; // (argument already consumed below)
+                    res = guarded([&] { sl.p->emplace(sl.p->begin() + pos, v, 1); });
+                    v = (v + 1) % 8;
                 }
             }
             if (!aliased)
@@ -1655,14 +1705,15 @@ public:
             case K_INSERT_LVALUE:
             case K_PUSH_BACK:
                 op.a[1] = static_cast<int64_t>(rng.below(NVAL));
+                op.a[2] = rng.chance(1, 5);
                 if (t.size < t.cap)
                     t.size++;
                 break;
             case K_PUSH_BACK_RANGE:
-                op.a[1] = static_cast<int64_t>(rng.below(4));
+                op.a[1] = static_cast<int64_t>(rng.below(4)) + (rng.chance(1, 4) ? 8 : 0);
                 op.a[2] = static_cast<int64_t>(rng.below(NVAL));
-                if (t.size + static_cast<size_t>(op.a[1]) <= t.cap)
-                    t.size += static_cast<size_t>(op.a[1]);
+                if (t.size + static_cast<size_t>(op.a[1] % 8) <= t.cap)
+                    t.size += static_cast<size_t>(op.a[1] % 8);
                 else
                     t.size = t.cap; // whatever prefix went in; executor resynchronises
                 break;
@@ -1684,7 +1735,7 @@ public:
                 break;
             case K_EMPLACE_POS:
                 op.a[1] = static_cast<int64_t>(rng.below(t.size + 1));
-                op.a[2] = static_cast<int64_t>(rng.below(NVAL));
+                op.a[2] = static_cast<int64_t>(rng.below(NVAL)) + (rng.chance(1, 5) ? 8 : 0);
                 op.a[3] = rng.chance(1, 4) ? static_cast<int64_t>(1 + rng.below(MAXCAP)) : 0;
                 if (t.size < t.cap)
                     t.size++;
